@@ -5,6 +5,12 @@ use crate::wire::{data_of, escape};
 
 pub fn generate(g: &mut Gen, thorough: bool) {
     let rounds = if thorough { 80 } else { 8 };
+    // the ellipsoid methods the operators are compared with, themselves tied to the model
+    {
+        let mut ells: Vec<String> = ["GRS80", "intl", "bessel", "sphere", "krass"].iter().map(|s| s.to_string()).collect();
+        ells.push(format!("{},{}", g.rng.uniform(6.0e6, 6.5e6), g.rng.uniform(150.0, 400.0)));
+        super::c06::ell_cases(g, &ells, if thorough { 20 } else { 3 });
+    }
     // tmerc against btmerc within three degrees of the central meridian
     for _ in 0..rounds {
         let d = proj::random(&mut g.rng, "btmerc");
